@@ -4,11 +4,11 @@ set -u
 root=$(cd "$(dirname "$0")/.." && pwd)
 cd "$root"
 mkdir -p build evidence replays
-for v in verif asan; do tools/build_repo.sh $v || exit 1; done
+for v in verif asan tsan; do tools/build_repo.sh $v || exit 1; done
 for d in harness/*/; do
   n=$(basename "$d")
   [ -f "$d/Makefile" ] || continue
-  b=$root/build/repo-verif; [ "$n" = parsex ] && b=$root/build/repo-asan
-  make -s -C "$d" -j16 B=$b OUT=$root/build/harness/$n || exit 1
+  b=$root/build/repo-verif; [ "$n" = parsex ] && b=$root/build/repo-asan; [ "$n" = tsanx ] && b=$root/build/repo-tsan
+  make -s -C "$d" -j16 B=$b OUT=$root/build/harness/$n R=${VERIF_REPO:-/repo} SRC=${VERIF_REPO:-/repo} || exit 1
 done
 echo "setup ok"
